@@ -132,6 +132,17 @@ Definition router_ok (pcaps : list bool) (sel : list nat) (o_cap o_dcap : bool) 
   && (length o_calls =? length sel)
   && forallb (fun p => count_occ Nat.eq_dec o_calls p =? count_occ Nat.eq_dec sel p) (seq 0 (length pcaps)).
 
+(* ---- the capability a built consumer advertises: the last WithCapabilities wins; defaults: consumer false,
+   processor helper true; an exporter helper with batching always mutates ---- *)
+Definition spec_last (opts : list bool) (default : bool) : bool :=
+  match rev opts with b :: _ => b | [] => default end.
+Definition spec_cap (kind : nat) (opts : list bool) (batching : bool) : bool :=
+  match kind with
+  | 0 => spec_last opts false
+  | 1 => spec_last opts true
+  | _ => if batching then true else spec_last opts false
+  end.
+
 (* ---- the checker ------------------------------------------------------------------------------------- *)
 Definition case_clauses (c : vcase) : list bool :=
   match c with
@@ -143,6 +154,7 @@ Definition case_clauses (c : vcase) : list bool :=
   | CTree _ roots o_rc o_caps =>
       [ Bool.eqb o_rc (spec_fan (map spec_pipe_cap roots)); list_eqb Bool.eqb o_caps (flat_map spec_pipe_caps roots) ]
   | CGraph _ _ tree o_arr _ => [ graph_ok tree o_arr ]
+  | CBuilt kind _ opts batching o_cap => [ Bool.eqb o_cap (spec_cap kind opts batching) ]
   | CRouter _ pcaps sel o_cap o_dcap o_calls => [ router_ok pcaps sel o_cap o_dcap o_calls ]
   end.
 
